@@ -9,6 +9,8 @@
 //   name <hex of name>              message_digest::create_by_name
 //   cbc  <bits> <key> <iv> <msg>    cbc: one-shot and chunked encrypt/decrypt, IV dependence
 //   cbcst <bits> <op>...            status machine: k<n> i<n> n e d
+//   big  <algo> <nbytes> <chunk>   message byte i = i mod 251 generated here, fed in chunks (counter carries)
+//   rekey <bits> <key1> <key2> <iv> <plain> <used>   second set_key on one object
 //   sess hmac <algo> <key> <plain> | sess aes <cbc> <mac> <cbckey> <mackey> <plain>
 // <msg> = "." (no append call) or chunks separated by ',' (each hex, "-" = empty chunk)
 #include <cppcms/crypto.h>
@@ -198,6 +200,41 @@ int main(int argc,char **argv)
 				a->set_iv(iv.data(),iv.size());
 				std::string c3=crypt(*a,plain,true);
 				out<<"cbc "<<hex(c1)<<" chain="<<(c1==c2)<<" rt="<<(p1==plain)<<" rtb="<<(p2==plain)<<" ivind="<<ivind<<" reiv="<<(c3==c1);
+			}
+		}
+		else if(v.size()==4 && v[0]=="big") {
+			// long message made here (byte i = i mod 251), fed in chunks of the given size: bit counter carries
+			unsigned long long n=strtoull(v[2].c_str(),0,10),chunk=strtoull(v[3].c_str(),0,10),pos=0;
+			std::unique_ptr<cr::message_digest> d=cr::message_digest::create_by_name(v[1]);
+			if(!d.get() || chunk==0) out<<"big null";
+			else {
+				std::vector<unsigned char> buf(chunk);
+				unsigned c=0;
+				while(pos<n) {
+					size_t m= n-pos<chunk ? size_t(n-pos) : size_t(chunk);
+					for(size_t i=0;i<m;i++) { buf[i]=(unsigned char)c; if(++c==251) c=0; }
+					d->append(&buf[0],m);
+					pos+=m;
+				}
+				out<<"big "<<v[1]<<" "<<hex(readout(*d,d->digest_size()));
+			}
+		}
+		else if(v.size()==7 && v[0]=="rekey") {
+			// a second set_key on an object that has (used=1) or has not (used=0) encrypted already
+			int bits=atoi(v[1].c_str());
+			std::string k1=unhex(v[2]),k2=unhex(v[3]),iv=unhex(v[4]),plain=unhex(v[5]);
+			bool used=v[6]=="1";
+			std::unique_ptr<cr::cbc> a=make_cbc(bits,k1,iv,false),b=make_cbc(bits,k2,iv,false),c=make_cbc(bits,k1,iv,false);
+			if(!a.get() || !b.get() || !c.get()) out<<"rekey null";
+			else {
+				if(used) { crypt(*a,plain,true); crypt(*a,plain,false); }
+				int threw=0;
+				try { a->set_key(cr::key(k2.data(),k2.size())); } catch(booster::runtime_error const &) { threw=1; }
+				a->set_iv(iv.data(),iv.size());
+				std::string c2=crypt(*a,plain,true),cb=crypt(*b,plain,true),cc=crypt(*c,plain,true);
+				a->set_iv(iv.data(),iv.size());
+				std::string p2=crypt(*a,cb,false);
+				out<<"rekey threw="<<threw<<" new="<<(c2==cb)<<" old="<<(c2==cc)<<" decnew="<<(p2==plain);
 			}
 		}
 		else if(v.size()>=2 && v[0]=="cbcst") {
